@@ -7,5 +7,6 @@ CONSTANTS Kinds <- MostKinds
   EOF_IS_BROKEN = TRUE
   TRIM_TWICE = FALSE
   USED_HOISTED = FALSE
+  SHARED_SEEN = FALSE
 INVARIANTS TypeOK PropertyHolds StepsAgree DamageHarmless
 CHECK_DEADLOCK FALSE
